@@ -517,6 +517,35 @@ def run(ctx):
             r5.fail(f"select itemset[{desc}]", f"evaluates ({r.exc_name}{r.exc_args})", bx.loc())
             continue
         r5.check(got == want, f"select itemset[{desc}]", f"nodeset {want[0]} with refs {want[1]}", bx.loc(), why_fail=repr(got))
+    # select from a repeat (`select_one ${name}`): the item nodeset is the repeat, paths INTO the repeat become relative
+    # to the item ('.'), and every other path - also one that merely starts with the repeat's path as a string - stays
+    PATHS = {"name": "/data/rep/name", "age": "/data/rep/age", "rep_other": "/data/rep_other", "z": "/data/rep2/z", "k": "/data/k"}
+
+    def _ix_paths(i, a, k, n):
+        import re as _re
+        text = next((x for x in a if isinstance(x, str)), k.get("text"))
+        return _re.sub(r"\$\{([^}]+)\}", lambda m_: " " + PATHS[m_.group(1)] + " ", text)
+
+    def run_prev(choice_filter):
+        CTRL = NodeVal("select1")
+        it = ctx.interp("C09.R5", hooks={"fnname:node": node_hook, "fnname:_build_xml": lambda i, a, k, n: CTRL, "fnname:insert_xpaths": _ix_paths})
+        it.reset([])
+        el = _mk(ctx, mq, "q", bind={"type": "string"}, itemset="${name}", choice_filter=choice_filter, parameters=None, choices=None, label="L")
+        sv = Obj(None, {"insert_xpaths": _ix_paths}, name="survey")
+        it.call_function(bx, [el], {"survey": sv}, None, bx.node)
+        sets = [c for c in CTRL.children if isinstance(c, NodeVal) and c.tag == "itemset"]
+        return (sets[0].attrs.get("nodeset"), [(c.tag, c.attrs.get("ref")) for c in sets[0].children]) if len(sets) == 1 else None
+    for desc, cf, want_ns in (("no filter", None, "/data/rep[./name != '']"),
+                              ("filter on a sibling inside the repeat", "${age} > 18", "/data/rep[ ./age  > 18]"),
+                              ("filter on a question outside whose path starts with the repeat's path as a string", "${rep_other} = 1 and ${age} > 18", "/data/rep[ /data/rep_other  = 1 and  ./age  > 18]"),
+                              ("filter on a question in another repeat whose name extends this repeat's name", "${z} = ${name}", "/data/rep[ /data/rep2/z  =  ./name ]"),
+                              ("filter on an unrelated question", "${k} = 'x'", "/data/rep[ /data/k  = 'x']")):
+        try:
+            got = run_prev(cf)
+        except Raised as r:
+            r5.fail(f"select from repeat[{desc}]", f"evaluates ({r.exc_name}{r.exc_args})", bx.loc())
+            continue
+        r5.check(got == (want_ns, [("value", "name"), ("label", "name")]), f"select from repeat[{desc}]", f"nodeset {want_ns}", bx.loc(), why_fail=repr(got))
     # the parameters cell: names are case-insensitive; the values that name something of the author's (a file column for
     # value / label, a question for seed) keep their case, flag values are normalised
     pg = ctx.func("pyxform.validators.pyxform.parameters_generic:parse", "C09.R5")
